@@ -1,7 +1,53 @@
-(* C12 — placeholder; replaced when Proofs/ReplProofs.v is in. *)
+(* C12 — entering a program line by line interactively equals running it whole.  Property theorems only.
+   Model: coq/Model/Repl.v (trim, keywords, per-line parse, execute() for each command with the persistent
+   state, per-line capture and flush, clear).  [repl_run true fuel lines] gives, per entered line, what the user is
+   shown, and how the session ends.  Programs are input-free (the interpreter shares stdin with the program). *)
 From Coq Require Import List NArith Bool.
 Import ListNotations.
-From HV Require Import Model.Exec Model.Repl.
-Theorem C12_no_lines : forall fx fuel, repl_run fx fuel [] = ([], RAlive).
-Proof. reflexivity. Qed.
-Print Assumptions C12_no_lines.
+From HV Require Import Model.Parse Model.Exec Model.Opt Model.Repl Proofs.OptSpec Proofs.AppSpec Proofs.AppAll.
+Open Scope N_scope.
+
+(* for every clear-free history — any cutting of the commands into lines, with blank and help lines in between —
+   everything shown for stdout and for stderr, in order and exactly once, and the way the session ends, are those of
+   running all the entered commands as one program (jumps back into commands of earlier lines included) *)
+Theorem C12_line_by_line_equals_whole : forall fuel lines evs e, forallb plain_line lines = true ->
+  repl_run true fuel lines = (evs, e) -> e <> RFuelOut ->
+  exists F, beh (run_inc F [] (flat_map line_cmds lines) (state0 SUnopt [])) = (rkind e, shown_out evs, shown_err evs).
+Proof. exact repl_whole_t. Qed.
+Print Assumptions C12_line_by_line_equals_whole.
+
+(* each line's text is the text its commands write: execute() command by command equals execute_one over the
+   program loaded in advance — nothing ever refers to a command that has not been entered yet *)
+Theorem C12_incremental_equals_preloaded : forall f done todo s, targets_ok (N.of_nat (length done)) s ->
+  match run_inc f done todo s with
+  | FFuel _ _ => True
+  | x => run_pre (S f) (done ++ todo) s (N.of_nat (length done)) = x
+  end.
+Proof. exact inc_pre_t. Qed.
+Print Assumptions C12_incremental_equals_preloaded.
+
+(* the capture buffers are write-only: a line's run does not depend on what earlier lines wrote *)
+Theorem C12_output_buffers_write_only : forall fuel done todo s o e,
+  run_inc fuel done todo (add_io o e s) = map_final (add_io o e) (run_inc fuel done todo s).
+Proof. exact run_inc_frame_t. Qed.
+Print Assumptions C12_output_buffers_write_only.
+
+(* `clear` returns to the initial state *)
+Theorem C12_clear_resets : forall fx fuel line rest log s, leqb (trim line) KW_CLEAR = true ->
+  repl fx fuel (line :: rest) log s =
+  (let (ev, e) := repl fx fuel rest [] (state0 SUnopt (inp s)) in (EvFlush [] [] :: ev, e)).
+Proof. exact repl_clear_t. Qed.
+Print Assumptions C12_clear_resets.
+
+(* the pinned tree (before fix 254b24c) dropped a line's text when the line ended in an error *)
+Theorem C12_pinned_refuted : exists fuel lines, forallb plain_line lines = true /\
+  shown_out (fst (repl_run false fuel lines)) <> shown_out (fst (repl_run true fuel lines)).
+Proof. exact repl_pinned_refuted_t. Qed.
+Print Assumptions C12_pinned_refuted.
+
+Example C12_examples :
+  let l1 := [54805;46;46;32;54805;46;46;46;10] in let l2 := [32;10] in let l3 := [54637;46;32;54637;46;10] in
+  repl_run true 100 [l1; l2; l3] = ([EvFlush [] []; EvNothing; EvFlush [3; 2] []], RAlive) /\
+  repl_run true 100 [l1 ++ l3] = ([EvFlush [3; 2] []], RAlive).
+Proof. vm_compute. split; reflexivity. Qed.
+Print Assumptions C12_examples.
